@@ -98,6 +98,11 @@ class Ctx:
         if len(s) < 2_000_000:
             s.add(key if isinstance(key, str) else json.dumps(jsonable(key), sort_keys=True))
 
+    def add_hash(self, setname, obj):
+        s = self.sets[setname]
+        if len(s) < 4_000_000:
+            s.add(hashlib.blake2b(json.dumps(jsonable(obj), sort_keys=True).encode(), digest_size=8).hexdigest())
+
     def mx(self, name, v):
         if name not in self.maxs or v > self.maxs[name]:
             self.maxs[name] = v
